@@ -18,7 +18,7 @@ func init() {
 // removed concurrently. Small queues.
 func runC07(c *Ctx) {
 	g := c.Gen
-	rc := &router.RealmConfig{URI: "r1", AnonymousAuth: true, AllowDisclose: true, EnableMetaKill: g.Chance(1, 3)}
+	rc := &router.RealmConfig{URI: "r1", AnonymousAuth: true, AllowDisclose: g.Chance(2, 3), EnableMetaKill: g.Chance(1, 3)}
 	w, err := NewWorld(c.S, &router.Config{RealmConfigs: []*router.RealmConfig{rc}})
 	if err != nil {
 		c.Res.Tooling = "NewRouter: " + err.Error()
